@@ -38,8 +38,14 @@ func (w *World) GovExec(title string, msgs ...sdk.Msg) bool {
 	}
 	w.ProposalID++
 	id := w.ProposalID
-	b = w.Step(5, w.Tx(w.Voter, govv1.NewMsgVote(w.Voter.Addr, id, govv1.OptionYes, "")))
-	if w.Dead || !b.Txs[len(b.Txs)-1].OK() {
+	// every user votes as well: users delegate during the runs, and the genesis voter alone would
+	// fall under the quorum / threshold after a while (a proposal voted down is not a rejected edge)
+	votes := []*TxRecord{w.Tx(w.Voter, govv1.NewMsgVote(w.Voter.Addr, id, govv1.OptionYes, ""))}
+	for _, u := range w.Users {
+		votes = append(votes, w.Tx(u, govv1.NewMsgVote(u.Addr, id, govv1.OptionYes, "")))
+	}
+	b = w.Step(5, votes...)
+	if w.Dead || !b.Txs[1].OK() {
 		return false
 	}
 	w.Step(11)
